@@ -180,6 +180,15 @@ pub fn cell_number(q: Q, scale: u32, style: NumStyle) -> String {
     }
 }
 
+/// Appends rewrite rules (YAML list items, two-space indented) to a configuration document whose
+/// `rewrite:` key, if present, is its last key.
+pub fn push_rules(yaml: &mut String, items: &str) {
+    if !yaml.contains("\nrewrite:\n") {
+        yaml.push_str("rewrite:\n");
+    }
+    yaml.push_str(items);
+}
+
 pub fn csv_cell(s: &str) -> String {
     format!("\"{}\"", s.replace('"', "\"\""))
 }
@@ -231,6 +240,9 @@ pub struct CsvRow {
     pub commodity: String,
     pub conv: Option<Conv>,
     pub charge: Option<Q>,
+    /// the row's payee matches a rewrite rule carrying `conversion: {disabled: true}`: the conversion
+    /// cells are filled in the file but no conversion applies
+    pub conversion_disabled: bool,
 }
 
 #[derive(Clone, Debug)]
@@ -253,6 +265,10 @@ pub struct CsvLayout {
     pub scale: u32,
     pub rate_mode: RateMode,
     pub compute: bool,
+    /// rows without a date (separators, sub-totals) are sprinkled between the records
+    pub dateless_rows: bool,
+    /// a rewrite rule with `conversion: {disabled: true}` for payees starting with NOCONV
+    pub disable_rule: bool,
 }
 
 #[derive(Clone, Debug)]
@@ -320,6 +336,8 @@ impl CsvCase {
             scale,
             rate_mode: if rng.chance(1, 2) { RateMode::PriceOfSecondary } else { RateMode::PriceOfPrimary },
             compute: rng.chance(1, 3),
+            dateless_rows: rng.chance(1, 4),
+            disable_rule: conversion_cols && rng.chance(1, 3),
         };
         let mut layout = layout;
         layout.payee_template = layout.category_col && layout.note_col && rng.chance(1, 4);
@@ -370,9 +388,11 @@ impl CsvCase {
                 }
             }
             bal = bal.add(amount).unwrap();
+            let conversion_disabled = layout.disable_rule && !layout.payee_template && conv.is_some() && charge.is_none() && rng.chance(1, 2);
             rows.push(CsvRow {
+                conversion_disabled,
                 date: day,
-                payee: rng.pick(payees).to_string(),
+                payee: if conversion_disabled { format!("NOCONV {}", rng.pick(payees)) } else { rng.pick(payees).to_string() },
                 category: rng.pick_str(CATEGORIES).to_string(),
                 note: if rng.chance(1, 2) { rng.pick(notes).to_string() } else { String::new() },
                 amount,
@@ -438,6 +458,12 @@ impl CsvCase {
             rows.reverse();
         }
         for r in rows {
+            if l.dateless_rows && rng.chance(1, 3) {
+                // a separator / sub-total line: no date, some text, enough columns
+                let cells: Vec<String> = cols.iter().map(|(key, _)| csv_cell(if *key == "payee" { "*** sub total ***" } else { "" })).collect();
+                text.push_str(&cells.join(&d));
+                text.push('\n');
+            }
             let mut cells: Vec<String> = Vec::new();
             for (key, _) in &cols {
                 let v = match *key {
@@ -524,6 +550,9 @@ impl CsvCase {
                 y.push_str(&format!("    {}: {}\n", key, i + 1));
             }
         }
+        if l.disable_rule {
+            y.push_str("rewrite:\n  - matcher:\n      payee: \"^NOCONV\"\n    conversion:\n      disabled: true\n");
+        }
         self.config_yaml = y;
     }
 
@@ -562,8 +591,9 @@ pub fn determinism_jobs(rng: &mut Rng, dir: &Path) -> Option<(Vec<Job>, String)>
     }
     // rules whose AND-maps have several matchers, each with named groups: the outcome must not
     // depend on the order in which the matchers of one map are evaluated
-    case.config_yaml.push_str(
-        "rewrite:\n  - matcher:\n      payee: \"(?P<payee>[A-Za-z]+) .*\"\n      category: \"(?P<payee>[A-Z][a-z]+)\"\n    account: Expenses:Matched\n  - matcher:\n      - payee: \"(?P<code>SBB)\"\n        category: \"(?P<code>Tr)avel\"\n      - category: \"Income\"\n    account: Income:Salary\n    pending: true\n",
+    push_rules(
+        &mut case.config_yaml,
+        "  - matcher:\n      payee: \"(?P<payee>[A-Za-z]+) .*\"\n      category: \"(?P<payee>[A-Z][a-z]+)\"\n    account: Expenses:Matched\n  - matcher:\n      - payee: \"(?P<code>SBB)\"\n        category: \"(?P<code>Tr)avel\"\n      - category: \"Income\"\n    account: Income:Salary\n    pending: true\n",
     );
     let (cfg, src) = case.write(dir).ok()?;
     let mut jobs = vec![Job { family: "import-csv-multi-matcher-rules", argv: vec!["import".into(), "--config".into(), cfg.to_string_lossy().into_owned(), src.to_string_lossy().into_owned()] }];
@@ -607,8 +637,10 @@ pub struct CamtDetail {
     pub ultimate_debtor: Option<String>,
     pub remittance: Option<String>,
     pub additional_info: Option<String>,
-    /// charge included in the amount (debit charge): TxAmt = amount -/+ charge
+    /// charge included in the amount: TxAmt = amount -/+ charge
     pub charge: Option<Q>,
+    /// the charge record is a credit (a fee rebate netted into the amount) instead of a debit
+    pub charge_is_credit: bool,
 }
 
 #[derive(Clone, Debug)]
@@ -693,8 +725,10 @@ impl CamtCase {
                 // a batched entry may mix credits and debits as long as the signed sum is the entry
                 let dcredit = if n_details > 1 && rng.chance(1, 5) { !credit } else { credit };
                 let charge = if rng.chance(1, 6) { Some(Q::int(rng.range(1, 500) as i128).mul(cent).unwrap()) } else { None };
-                // an included debit charge must leave a positive transaction amount
-                let charge = charge.filter(|c| dcredit || amt.sub(*c).map(|x| x.signum() > 0).unwrap_or(false));
+                let charge_is_credit = charge.is_some() && rng.chance(1, 4);
+                // an included charge must leave a positive transaction amount
+                let shrinks = dcredit == charge_is_credit; // debit charge on a debit detail, or rebate on a credit detail
+                let charge = charge.filter(|c| !shrinks || amt.sub(*c).map(|x| x.signum() > 0).unwrap_or(false));
                 details.push(CamtDetail {
                     amount: amt,
                     credit: dcredit,
@@ -705,6 +739,7 @@ impl CamtCase {
                     remittance: if rng.chance(1, 3) { Some(rng.pick(texts).to_string()) } else { None },
                     additional_info: if rng.chance(1, 2) { Some(rng.pick(texts).to_string()) } else { None },
                     charge,
+                    charge_is_credit,
                 });
                 let d = details.last().unwrap();
                 total = total.add(d.signed()).unwrap();
@@ -769,10 +804,12 @@ impl CamtCase {
                     }
                     x.push_str("<EndToEndId>NOTPROVIDED</EndToEndId></Refs>\n");
                     x.push_str(&format!("            <Amt Ccy=\"{}\">{}</Amt>\n            <CdtDbtInd>{}</CdtDbtInd>\n", c, money(d.amount), if d.credit { "CRDT" } else { "DBIT" }));
+                    // amount before charges: a debit charge was taken out of a credit / added to a debit;
+                    // a credited charge (rebate) the other way round
                     let tx_amt = match d.charge {
                         None => d.amount,
                         Some(ch) => {
-                            if d.credit {
+                            if d.credit != d.charge_is_credit {
                                 d.amount.add(ch).unwrap()
                             } else {
                                 d.amount.sub(ch).unwrap()
@@ -781,7 +818,7 @@ impl CamtCase {
                     };
                     x.push_str(&format!("            <AmtDtls><InstdAmt><Amt Ccy=\"{}\">{}</Amt></InstdAmt><TxAmt><Amt Ccy=\"{}\">{}</Amt></TxAmt></AmtDtls>\n", c, money(tx_amt), c, money(tx_amt)));
                     if let Some(ch) = d.charge {
-                        x.push_str(&format!("            <Chrgs><Rcrd><Amt Ccy=\"{}\">{}</Amt><CdtDbtInd>DBIT</CdtDbtInd><ChrgInclInd>true</ChrgInclInd></Rcrd></Chrgs>\n", c, money(ch)));
+                        x.push_str(&format!("            <Chrgs><Rcrd><Amt Ccy=\"{}\">{}</Amt><CdtDbtInd>{}</CdtDbtInd><ChrgInclInd>true</ChrgInclInd></Rcrd></Chrgs>\n", c, money(ch), if d.charge_is_credit { "CRDT" } else { "DBIT" }));
                     }
                     if d.creditor.is_some() || d.debtor.is_some() || d.ultimate_debtor.is_some() {
                         x.push_str("            <RltdPties>");
